@@ -6,13 +6,16 @@
 //	precedence  raw requests over all 2^4 presence combinations of c2
 //	            parameter / c2 header / Host / SNI, judged by a reference
 //	            function written from the statement (IDNA expectations from
-//	            fixed known-answer vectors)
+//	            fixed known-answer vectors); listeners on OS-chosen ports,
+//	            on 443 and on ports that resemble 443 (ports.go)
 //	ids         many scripts; every ID of the run goes into one set
 //	exec        scripts addressed to the real listener are run by /bin/sh
 //	            with the real curl; attach notices, ready notice, a command
 //	            round trip
 //	template    histories of edits/removals/re-creations of the template
-//	            file, one request after each step
+//	            file, one request after each step; the configured path is a
+//	            plain file, a symbolic link, or passes through a symlinked
+//	            directory (template.go)
 package c07
 
 import (
@@ -25,7 +28,6 @@ import (
 	"path/filepath"
 	"regexp"
 	"sort"
-	"strconv"
 	"strings"
 	"sync"
 	"syscall"
@@ -180,9 +182,10 @@ func (c *ctx) awaitNotice(engine string, idx int, s *hk.Server, from int, id, au
 // ---- listeners -------------------------------------------------------------------
 
 type lsn struct {
-	name string // v4 v6 443
-	s    *hk.Server
-	port string
+	name  string // v4 v6 443, or the name of a port class
+	class string // "" for the listeners on an OS-chosen port and on 443; else the port class
+	s     *hk.Server
+	port  string
 }
 
 func startLsn(name, addr string, cfg hk.Config) (*lsn, error) {
@@ -302,8 +305,9 @@ func headerVals(k int) []val {
 
 func sp(s string) *string { return &s }
 
-func genCase(rng *rand.Rand, idx int, l *lsn) *pcase {
-	bits := idx % 16
+// genCase: bits says which of c2 parameter (8) / c2 header (4) / Host (2) /
+// SNI (1) are present; everything else is drawn from rng.
+func genCase(rng *rand.Rand, idx int, l *lsn, bits int) *pcase {
 	P, H, O, S := bits&8 != 0, bits&4 != 0, bits&2 != 0, bits&1 != 0
 	c := &pcase{Idx: idx, Listener: l.name, Method: "GET", Proto: "HTTP/1.1", HdrName: "c2"}
 	k := rng.IntN(100000)
@@ -591,7 +595,7 @@ func sweepLen() int { return 3 * 2 * (len(unicodeHosts) + len(asciiHosts(7, "1")
 func (c *ctx) precedenceCase(idx int, l *lsn, pc *pcase) {
 	r := c.r
 	if pc == nil {
-		pc = genCase(r.Rng("precedence", idx), idx, l)
+		pc = genCase(r.Rng("precedence", idx), idx, l, idx%16)
 	}
 	raw := pc.raw()
 	exp := reference(pc, l.port)
@@ -606,7 +610,12 @@ func (c *ctx) precedenceCase(idx int, l *lsn, pc *pcase) {
 	r.Count("requests:"+cls, 1)
 	r.Count("listener:"+l.name, 1)
 	r.Count("host_form:"+pc.HostForm, 1)
-	r.Distinct("prec|" + l.name + "|" + string(raw) + "|" + pc.SNI)
+	if l.class != "" {
+		r.Count("port_class_requests:"+l.class, 1)
+		r.Distinct("prec|" + l.name + "|" + l.port + "|" + string(raw) + "|" + pc.SNI)
+	} else {
+		r.Distinct("prec|" + l.name + "|" + string(raw) + "|" + pc.SNI)
+	}
 	wit := map[string]any{"case": pc, "request": string(raw), "listen_port": l.port, "expected": exp, "status": res.Status, "body": string(res.Body)}
 
 	if exp.Err {
@@ -633,6 +642,9 @@ func (c *ctx) precedenceCase(idx int, l *lsn, pc *pcase) {
 		case "sni":
 			if l.port == "443" {
 				return "sni-port-443"
+			}
+			if l.class != "" {
+				return "sni-port:" + l.class // a listen port that only resembles 443
 			}
 			return "sni-port"
 		}
@@ -718,10 +730,17 @@ func start443(r *mon.Run) *lsn {
 }
 
 func (c *ctx) precedenceEngine() {
-	r := c.r
-	if !r.WantEngine("precedence") {
+	if !c.r.WantEngine("precedence") {
 		return
 	}
+	c.precedenceMain()
+	// after the listener on 443 has been given back (other runs may want it)
+	c.portClassCases()
+}
+
+// precedenceMain: the listeners on OS-chosen ports and on 443.
+func (c *ctx) precedenceMain() {
+	r := c.r
 	var ls []*lsn
 	for _, d := range [][2]string{{"v4", "127.0.0.1:0"}, {"v6", "[::1]:0"}} {
 		l, err := startLsn(d[0], d[1], hk.Config{})
@@ -1120,224 +1139,6 @@ var execFailing = []string{
 	"#A0 url={{.URL}} id={{.ID}} fp={{.PubkeyFP}}\n{{index .URL 100000}}",
 }
 
-var stepKinds = []string{"writeA", "writeB", "writeA", "writeB", "rename-in", "unparsable", "exec-failing", "delete", "delete", "mkdir", "empty", "noop", "noop"}
-
-type tstate struct {
-	kind    string // valid-A valid-B empty unparsable exec-failing missing directory
-	nonce   int
-	content string
-}
-
-func (c *ctx) templateSequence(seq, steps int) {
-	r := c.r
-	rng := r.Rng("template", seq)
-	dir := filepath.Join(r.Work, fmt.Sprintf("tmpl-%d", seq))
-	os.MkdirAll(dir, 0o755)
-	path := filepath.Join(dir, "callback.tmpl")
-	st := tstate{kind: "missing"}
-	// stealth sequences: every version of the file has the same size and the same
-	// modification time (as cp -p, rsync -t or a deploy tool restoring timestamps leave it),
-	// so that only really re-reading the file can tell the versions apart
-	stealth := seq%2 == 1
-	fixed := time.Date(2024, 3, 25, 12, 0, 0, 0, time.UTC)
-	pad := func(content string) string {
-		if !stealth || content == "" || len(content) >= 700-9 {
-			return content
-		}
-		return content + "{{/*" + strings.Repeat("p", 700-9-len(content)) + "*/}}"
-	}
-	settle := func(p string) {
-		if stealth {
-			os.Chtimes(p, fixed, fixed)
-		}
-	}
-	write := func(content string) error {
-		if fi, err := os.Lstat(path); err == nil && fi.IsDir() {
-			os.RemoveAll(path)
-		}
-		err := os.WriteFile(path, []byte(pad(content)), 0o644)
-		settle(path)
-		return err
-	}
-	if stealth {
-		r.Count("template_stealth_sequences", 1)
-	}
-	if rng.IntN(2) == 0 {
-		st = tstate{kind: "valid-A", nonce: seq*1000000 + 999999}
-		st.content = fmt.Sprintf("#A%d url={{.URL}} id={{.ID}} fp={{.PubkeyFP}}\n", st.nonce)
-		write(st.content)
-	}
-	laddr := "127.0.0.1:0"
-	if seq%3 == 2 {
-		laddr = "[::1]:0"
-	}
-	l, err := startLsn("tmpl", laddr, hk.Config{TmplF: path})
-	if err != nil {
-		r.Inconclusive(fmt.Sprintf("template %d: server did not start: %v", seq, err))
-		return
-	}
-	defer l.s.Stop()
-	var hist []map[string]any
-	var sig []string
-	for step := 0; step < steps; step++ {
-		kind := stepKinds[rng.IntN(len(stepKinds))]
-		prev := st.kind
-		nonce := seq*1000000 + step
-		var ferr error
-		switch kind {
-		case "writeA", "writeB", "rename-in":
-			which := kind
-			if kind == "rename-in" {
-				which = []string{"writeA", "writeB"}[rng.IntN(2)]
-			}
-			ns := tstate{nonce: nonce}
-			if which == "writeA" {
-				ns.kind = "valid-A"
-				ns.content = fmt.Sprintf("#A%d url={{.URL}} id={{.ID}} fp={{.PubkeyFP}}\n", nonce)
-			} else {
-				ns.kind = "valid-B"
-				ns.content = fmt.Sprintf("#B%d\nfp={{.PubkeyFP}}\nid={{.ID}}\nurl={{.URL}}\ncurl https://{{.URL}}/i/{{.ID}} https://{{.URL}}/o/{{.ID}}\n", nonce)
-			}
-			if kind == "rename-in" {
-				tmp := path + ".new"
-				if ferr = os.WriteFile(tmp, []byte(pad(ns.content)), 0o644); ferr == nil {
-					settle(tmp)
-					if fi, err := os.Lstat(path); err == nil && fi.IsDir() {
-						os.RemoveAll(path)
-					}
-					ferr = os.Rename(tmp, path)
-				}
-			} else {
-				ferr = write(ns.content)
-			}
-			st = ns
-		case "unparsable":
-			st = tstate{kind: "unparsable", content: unparsable[rng.IntN(len(unparsable))]}
-			ferr = write(st.content)
-		case "exec-failing":
-			st = tstate{kind: "exec-failing", content: execFailing[rng.IntN(len(execFailing))]}
-			ferr = write(st.content)
-		case "empty":
-			st = tstate{kind: "empty"}
-			ferr = write("")
-		case "delete":
-			ferr = os.RemoveAll(path)
-			st = tstate{kind: "missing"}
-		case "mkdir":
-			os.RemoveAll(path)
-			ferr = os.Mkdir(path, 0o755)
-			st = tstate{kind: "directory"}
-		case "noop":
-		}
-		if ferr != nil {
-			r.Inconclusive(fmt.Sprintf("template %d step %d (%s): %v", seq, step, kind, ferr))
-			return
-		}
-		r.Count("template_steps:"+kind, 1)
-		r.Count("template_steps", 1)
-		r.Count("template_state:"+st.kind, 1)
-		if (prev == "missing" || prev == "directory") && strings.HasPrefix(st.kind, "valid") {
-			r.Count("template_recreations", 1)
-		}
-		// the request
-		var raw, wantURL string
-		switch rng.IntN(3) {
-		case 0:
-			wantURL = fmt.Sprintf("t%d-%d.example:8443", seq, step)
-			raw = fmt.Sprintf("GET /c HTTP/1.1\r\nHost: %s\r\nConnection: close\r\n\r\n", wantURL)
-		case 1:
-			wantURL = fmt.Sprintf("q%d-%d.example", seq, step)
-			raw = fmt.Sprintf("GET /c?c2=%s HTTP/1.1\r\nHost: other.example\r\nConnection: close\r\n\r\n", wantURL)
-		default:
-			wantURL = fmt.Sprintf("hd%d-%d.example", seq, step)
-			raw = fmt.Sprintf("GET /c HTTP/1.1\r\nHost: other.example\r\nc2: %s\r\nConnection: close\r\n\r\n", wantURL)
-		}
-		res, conn, err := hk.RoundTrip(l.s.Addr, "", []byte(raw), hk.Bound)
-		if err != nil || res == nil {
-			r.Inconclusive(fmt.Sprintf("template %d step %d: request failed: %v", seq, step, err))
-			return
-		}
-		r.Eval(1)
-		r.Distinct("tmpl|" + prev + ">" + kind + ">" + st.kind + "|" + raw[:strings.Index(raw, "\r\n")][:8])
-		body := string(res.Body)
-		show := body
-		if len(show) > 300 {
-			show = show[:300] + "…"
-		}
-		h := map[string]any{"step": step, "op": kind, "file_state": st.kind, "status": res.Status, "body": show}
-		if len(hist) < 12 {
-			hist = append(hist, h)
-		}
-		sig = append(sig, kind)
-		wit := map[string]any{"sequence": seq, "step": step, "op": kind, "file_state": st.kind, "file_content": trunc(st.content, 300), "previous_state": prev, "request": raw, "status": res.Status, "body": show, "history_so_far": strings.Join(sig, ",")}
-		pin := ""
-		if conn != nil && len(conn.Chain) > 0 {
-			pin = hk.Pin(conn.Chain[0])
-		}
-		switch st.kind {
-		case "valid-A", "valid-B", "empty":
-			r.Count("template_valid_checked", 1)
-			if res.Status != 200 {
-				c.violate("template", seq, "template-stale", fmt.Sprintf("template file holds a valid template (%s, after %s) but /c answered %d: the response does not reflect the file as of this request", st.kind, kind, res.Status), wit)
-				continue
-			}
-			if st.kind == "empty" {
-				if body != "" {
-					c.violate("template", seq, "template-stale", fmt.Sprintf("template file is empty (after %s over %s) but /c served %d bytes", kind, prev, len(body)), wit)
-				}
-				continue
-			}
-			var n, u1, u2, u3, id1, id2, id3, fp string
-			if m := tmplARe.FindStringSubmatch(body); m != nil && st.kind == "valid-A" {
-				n, u1, id1, fp = m[1], m[2], m[3], m[4]
-				u2, u3, id2, id3 = u1, u1, id1, id1
-			} else if m := tmplBRe.FindStringSubmatch(body); m != nil && st.kind == "valid-B" {
-				n, fp, id1, u1, u2, id2, u3, id3 = m[1], m[2], m[3], m[4], m[5], m[6], m[7], m[8]
-			} else {
-				c.violate("template", seq, "template-stale", fmt.Sprintf("template file holds %s #%d (after %s over %s) but the body was not rendered from it", st.kind, st.nonce, kind, prev), wit)
-				continue
-			}
-			if n != strconv.Itoa(st.nonce) {
-				c.violate("template", seq, "template-stale", fmt.Sprintf("template file holds %s #%d (after %s over %s) but the body was rendered from #%s", st.kind, st.nonce, kind, prev, n), wit)
-				continue
-			}
-			r.Count("template_renders_matched", 1)
-			if u1 != wantURL || u2 != wantURL || u3 != wantURL {
-				c.violate("template", seq, "c2-precedence:template", fmt.Sprintf("template rendered URL %q/%q/%q, expected %q", u1, u2, u3, wantURL), wit)
-			}
-			if id1 != id2 || id1 != id3 {
-				c.violate("template", seq, "script-two-ids-differ", fmt.Sprintf("one rendering carries IDs %q, %q, %q", id1, id2, id3), wit)
-			}
-			c.addID("template", seq, id1, fmt.Sprintf("template %d step %d", seq, step))
-			r.Count("pins_compared", 1)
-			if fp != pin {
-				c.violate("template", seq, "script-pin-mismatch", fmt.Sprintf("template rendered fingerprint %q, the key presented in this handshake hashes to %q", fp, pin), wit)
-			}
-		default: // missing directory unparsable exec-failing
-			r.Count("template_errors_checked", 1)
-			r.Count("error_responses_checked", 1)
-			if res.Status < 400 {
-				key := "template-error-with-2xx"
-				what := fmt.Sprintf("template file is %s (after %s over %s) but /c answered %d with %d bytes", st.kind, kind, prev, res.Status, len(body))
-				if staleRe.MatchString(body) {
-					key = "template-stale"
-					what += ": an earlier content of the file was served"
-				} else if (st.kind == "missing" || st.kind == "directory") && strings.Contains(body, "--pinnedpubkey") {
-					key = "template-missing-served-default"
-					what += ": the built-in default script was served instead of an error"
-				}
-				c.violate("template", seq, key, what, wit)
-			}
-			if len(body) > 0 {
-				c.violate("template", seq, "template-error-with-body", fmt.Sprintf("template file is %s (after %s over %s); status %d came with a %d-byte body (a partial or stale script)", st.kind, kind, prev, res.Status, len(body)), wit)
-			}
-		}
-	}
-	r.Eval(1) // the history as a whole, besides its steps
-	r.Distinct("tmpl-history|" + strings.Join(sig, ","))
-	r.Sample("template-history", map[string]any{"sequence": seq, "steps": steps, "first_steps": hist})
-}
-
 func trunc(s string, n int) string {
 	if len(s) > n {
 		return s[:n] + "…"
@@ -1350,9 +1151,11 @@ func (c *ctx) templateEngine() {
 	if !r.WantEngine("template") {
 		return
 	}
-	seqs, steps := 4, 40
+	// sequence i: layout (i/2)%4 of the template path (plain, link, dirlink,
+	// dirlink+link), stealth if i is odd
+	seqs, steps := 8, 40
 	if r.Thorough() {
-		seqs, steps = 20, 100
+		seqs, steps = 24, 100
 	}
 	mon.Parallel(seqs, 4, func(i int) {
 		if r.Want("template", i) {
@@ -1364,13 +1167,16 @@ func (c *ctx) templateEngine() {
 // ---- entry -----------------------------------------------------------------------
 
 func Run(r *mon.Run) {
-	r.Rule = "hsrv.Server in-process on real TLS (127.0.0.1:0, [::1]:0, 127.0.0.1:443). precedence: raw requests over all 16 presence classes of c2 parameter (query, form body, both) / c2 header / Host (header, HTTP/1.0, absolute-form target carrying raw UTF-8) / SNI, with empty values, URL-encoded values, decoy names; each 200 body is parsed into its two curl commands which must agree in pin, authority and ID, the pin must equal base64(sha256(SPKI)) of the leaf presented in that handshake, the authority must equal the reference function written from the statement (IDNA answers from a fixed table), a 'Sent script' notice must carry the same ID/URL; no source at all => status >= 400 and empty body. ids: every ID seen by any engine goes into one set (charset [0-9a-z], no repeat). exec: scripts addressed to the real listener are run by /bin/sh with real curl in their own process group; Input/Output connected with that ID, ready notice, 'echo RT-n-$((6*7))' answered with RT-n-42, exit. template: PRNG histories of {write A, write B, rename-in, unparsable, failing at execution, empty, delete, directory, no-op} over the configured template file, one request after every step, response must reflect the file as of that request (valid => 200 rendered from the current content; missing/unparsable/failing => status >= 400 and empty body). distinct = distinct raw requests (precedence), executed script IDs, template transitions and histories"
+	r.Rule = "hsrv.Server in-process on real TLS. precedence: raw requests over all 16 presence classes of c2 parameter (query, form body, both) / c2 header / Host (header, HTTP/1.0, absolute-form target carrying raw UTF-8) / SNI, with empty values, URL-encoded values, decoy names; each 200 body is parsed into its two curl commands which must agree in pin, authority and ID, the pin must equal base64(sha256(SPKI)) of the leaf presented in that handshake, the authority must equal the reference function written from the statement (IDNA answers from a fixed table), a 'Sent script' notice must carry the same ID/URL; no source at all => status >= 400 and empty body. LISTEN PORTS of the precedence engine: OS-chosen on 127.0.0.1 and [::1], 443 itself, and ports drawn by the PRNG from classes defined by their decimal relation to 443 - ends443 (1443 … 65443), ends43or3 (ends in 43 but not 443, or in 3 but not 43), starts443 (4430-4439, 44300-44399), contains443 (x443y), near443 (442, 444, 44, 43, 4, 3; needs privilege) - per class 2 (thorough 6) listeners alternating 127.0.0.1 / [::1], a port that cannot be bound is skipped for the next candidate of its class (up to 24), per listener 32 (64) requests of which every other one carries nothing but SNI (expected authority: SNI:port for every port but 443) and the rest go round the 16 presence classes; the ports actually used are in coverage.listen_addresses_by_port_class. ids: every ID seen by any engine goes into one set (charset [0-9a-z], no repeat). exec: scripts addressed to the real listener are run by /bin/sh with real curl in their own process group; Input/Output connected with that ID, ready notice, 'echo RT-n-$((6*7))' answered with RT-n-42, exit. template: the configured path is <work>/tmpl-n/current/callback.tmpl in one of four layouts (sequence n: layout (n/2)%4, stealth = same size and mtime for every version if n is odd): plain (directory + regular file), link (callback.tmpl is a symbolic link to a file in store/), dirlink (current is a symbolic link to releases/N), dirlink+link (both); links are relative or absolute and are re-pointed by rename-over or by remove+create (PRNG). Histories of {write A, write B, rename-in, unparsable, failing at execution, empty, delete, directory, no-op} on what the path leads to, plus on a link layout {relink to a new file, relink to an earlier file, remove the link's target, relink to nothing; delete = remove the link, write = edit the link's target in place} and on a dirlink layout {swap current to a new release, to an earlier release, to a release without template, remove current}; the first 10-12 steps of a symlinked sequence are a fixed tour through every kind of link change, the rest is drawn from the PRNG; the link exists and resolves when the server starts; one request after every step, the response must reflect what the configured path leads to as of that request (valid => 200 rendered from the current content; missing/dangling/unparsable/failing => status >= 400 and empty body); a model of the path is kept by the harness and compared with os.ReadFile through the configured path before every verdict. distinct = distinct raw requests (precedence, per listen port for the port classes), executed script IDs, template transitions per layout and histories"
 	r.Assumptions = []string{
 		"the host information of a request with an absolute-form target is the target's authority (RFC 7230 5.4/5.5); Unicode hosts can only be sent this way because net/http rejects a non-ASCII Host header before any handler runs",
 		"an empty c2 value counts as not given; when one of query/body is 'c2=' and the other has a value, either reading is accepted (counted under ambiguous_param:*)",
 		"when query and body both give a value, either of the two is accepted",
 		"an all-ASCII Host is already in IDNA-ASCII form (case preserved)",
 		"the default template's shape (two 'curl -Nsk --pinnedpubkey \"sha256//…\" https://…' lines) is what the script parser understands",
+		"'the listen port unless that is 443' is read numerically: only the port 443 is left out of the SNI fallback; every other port, whatever its digits, is appended",
+		"'the configured template file' is whatever the configured path leads to at the time of the request (the operating system's path resolution, symbolic links included), not what it led to when the server started; a dangling link is a missing template",
+		"a port class none of whose candidates can be bound on a loopback address (no privilege for near443, every candidate taken) is reported as not explored (coverage.port_classes_not_explored, an added assumption line) and does not fail the run; at least one class must have been explored",
 	}
 	c := &ctx{r: r, vcount: map[string]int{}, ids: map[string]string{}}
 
@@ -1396,6 +1202,9 @@ func Run(r *mon.Run) {
 	}
 	r.Floor("sni_fallbacks:v4", 4)
 	r.Floor("sni_fallbacks:v6", 4)
+	if !r.Replaying() {
+		portClassFloors(r)
+	}
 	r.Floor("idna_vectors", 10)
 	r.Floor("idna_unicode_vectors", 5)
 	r.Floor("scripts_parsed", int64(r.N(3000, 50000)))
@@ -1404,8 +1213,9 @@ func Run(r *mon.Run) {
 	r.Floor("notices_matched", 150)
 	r.Floor("scripts_executed", int64(r.N(8, 80)))
 	r.Floor("roundtrips", int64(r.N(8, 80)))
-	r.Floor("template_steps", int64(r.N(160, 2000)))
-	r.Floor("template_renders_matched", int64(r.N(30, 400)))
-	r.Floor("template_errors_checked", int64(r.N(30, 400)))
+	r.Floor("template_steps", int64(r.N(320, 2400)))
+	r.Floor("template_renders_matched", int64(r.N(60, 480)))
+	r.Floor("template_errors_checked", int64(r.N(60, 480)))
+	templateFloors(r)
 	r.Floor("error_responses_checked", 40)
 }
